@@ -317,6 +317,45 @@ pub fn run_c19<P: TP>(c: &C19Case, env: &mut Env) -> R {
         }
     }
     ensure!(entries(&cl2) == ex, "C19", "C19:clone:clone-changed", "mutating the original changed its clone");
+    // clone_from into a target with its own history (own arena and free list): afterwards the target
+    // must behave exactly like a fresh clone, also under further operations
+    {
+        env.cur_op = "clone_from";
+        let mut w3: World<P, u64, SV> = World::new();
+        env.focus = Focus(0);
+        let _ = run_history(&mut w3, &c.other, env);
+        env.focus = Focus::of(&[19]);
+        let mut tgt: Side<P, u64> = Side::new("clone_from target");
+        tgt.map = std::mem::take(&mut w3.a.map);
+        tgt.map.clone_from(&cl2);
+        ensure!(entries(&tgt.map) == ex, "C19", "C19:clone_from:entries", "clone_from() yields a map with different entries");
+        ensure!(tgt.map == cl2 && cl2 == tgt.map && tgt.map.len() == cl2.len(), "C19", "C19:clone_from:not-equal", "the target of clone_from() is not equal to the source");
+        tgt.model = snapshot.clone();
+        tgt.canonical = false;
+        tgt.drift = w.a.drift.min(0).max(0);
+        if cl2.len() as i64 - ex.len() as i64 == 0 {
+            for (i, op) in c.suffix.iter().chain(c.other.iter().take(6)).enumerate() {
+                if matches!(op, Op::SetOpMut { .. }) || op.side() == Some(M::B) {
+                    continue;
+                }
+                env.step = 3000 + i;
+                env.focus = Focus::of(&[4]);
+                let r = apply_single(&mut tgt, op, env).and_then(|_| crate::observe::observe(&mut tgt, env, None));
+                env.focus = Focus::of(&[19]);
+                if let Err(f) = r {
+                    if f.sig.starts_with("C04:len") && (matches!(op, Op::ViewMut { .. })) {
+                        break;
+                    }
+                    return Err(crate::env::Fail {
+                        prop: "C19",
+                        sig: format!("C19:clone_from:diverges:{}", f.sig),
+                        msg: format!("a map filled by clone_from() misbehaves under further operations (a fresh clone does not): {}", f.msg),
+                    });
+                }
+            }
+            env.ev("clone_from_checked");
+        }
+    }
     // serde round trips
     serde_roundtrip::<P>(&cl2, env)?;
     env.cur_op = "";
